@@ -230,7 +230,7 @@ def decode_prefix(data, strict=True):
                 raise BencodeError('truncated', n, 'string without colon')
             ln = _parse_number(data[pos:colon], pos, strict, True)
             if colon + 1 + ln > n:
-                raise BencodeError('length-exceeds-data', pos, f'{ln} declared, {n - colon - 1} left')
+                raise BencodeError('length-exceeds-data', pos, f'{n - colon - 1} bytes left')
             value = data[colon + 1:colon + 1 + ln]
             pos = colon + 1 + ln
         # place value
@@ -430,6 +430,9 @@ def _check_schema(top, token_ok, first_wins=False):
             args = []
             notes.append('args-absent')
         if not isinstance(args, list):
+            if method == b'ping':
+                # ping takes no arguments; a reader that never looks at them is within its rights
+                return 'request', notes + ['ping-args-not-a-list']
             raise _Bad('schema:args-type')
         kwargs = {}
         pos = args
@@ -466,13 +469,15 @@ def _check_schema(top, token_ok, first_wins=False):
                 raise _Bad('schema:store-args')
             if not _is_bytes(pos[0], ID_LEN):
                 raise _Bad('schema:store-blob-hash')
-            if not isinstance(pos[1], bytes):
-                raise _Bad('schema:store-token-type')
             if not _is_int(pos[2]) or not 0 < pos[2] < 65536:
                 raise _Bad('schema:store-port')
-            if token_ok is not None and not token_ok(pos[1]):
-                raise _Bad('auth:store-token')
-            if len(pos) != 5 or not _is_bytes(pos[3], ID_LEN) or not _is_int(pos[4]) or len(pos[1]) != ID_LEN:
+            if token_ok is not None:
+                # the token is only judged (value and type) when the caller says which tokens were issued
+                if not isinstance(pos[1], bytes) or not token_ok(pos[1]):
+                    raise _Bad('auth:store-token')
+            elif not isinstance(pos[1], bytes):
+                notes.append('store-token-type')
+            if len(pos) != 5 or not _is_bytes(pos[3], ID_LEN) or not _is_int(pos[4]) or not _is_bytes(pos[1], ID_LEN):
                 notes.append('store-argument-shape')
         return 'request', notes
     if typ == RESPONSE:
@@ -657,6 +662,12 @@ def selftest():
     assert classify(encode(msgs['store']), token_ok=lambda t: False).reason == 'auth:store-token'
     assert classify(encode({0: 0, 1: rid, 2: nid, 3: b'nope', 4: [kw]})).reason == 'schema:unknown-method'
     assert classify(encode({0: 0, 1: rid, 2: nid, 3: b'findNode', 4: [key[:47], kw]})).reason == 'schema:findNode-key'
+    assert classify(encode({0: 0, 1: rid, 2: nid, 3: b'ping', 4: 0})).cls == 'lenient'
+    assert classify(encode({0: 0, 1: rid, 2: nid, 3: b'findNode', 4: 0})).reason == 'schema:args-type'
+    assert classify(encode({0: 0, 1: rid, 2: nid, 3: b'store', 4: [key, 7, 3333, nid, 0, kw]})).cls == 'lenient'
+    assert classify(encode({0: 0, 1: rid, 2: nid, 3: b'store', 4: [key, 7, 3333, nid, 0, kw]}),
+                    token_ok=lambda t: True).reason == 'auth:store-token'
+    assert classify(encode({0: 0, 1: rid, 2: nid, 3: b'store', 4: [[0] * 48, b't' * 48, 3333, nid, 0, kw]})).malformed
     assert classify(encode({0: 3, 1: rid, 2: nid, 3: b'pong'})).reason == 'schema:bad-type'
     assert classify(encode({0: 1, 1: rid[:19], 2: nid, 3: b'pong'})).reason == 'schema:rpc-id'
     assert classify(encode({0: 1, 1: rid, 2: [0] * 48, 3: b'pong'})).reason == 'schema:node-id'
